@@ -182,6 +182,10 @@ Definition zrange (z : Z) : list Z :=
 Definition num_data (d : list elem) : res (list Z) :=
   mapM (fun e => match e with ENum z => Ok z | _ => Err end) d.
 Definition range_limit : Z := 4096.
+(** sizes beyond which the reference declines to compute (resource guard, not semantics) *)
+Definition amt_limit : Z := 64.
+Definition size_limit : Z := 100000.
+Definition zprod (l : list Z) : Z := fold_right Z.mul 1%Z l.
 Definition p_range (a : arr) : res arr :=
   match aty a with
   | TBox => Unspec
@@ -189,6 +193,8 @@ Definition p_range (a : arr) : res arr :=
   | TNum =>
     zs <- num_data (adata a) ;;
     if existsb (fun z => (range_limit <? Z.abs z)%Z) zs then Unspec else
+    if (size_limit <? zprod (map Z.abs zs) * zlen zs)%Z then Unspec else
+    if (8 <? zlen zs)%Z then Unspec else      (* the implementation limits the number of axes *)
     match ash a, zs with
     | [], [z] => Ok (Arr TNum [Z.to_nat (Z.abs z)] (map ENum (zrange z)))
     | [k], _ =>
@@ -248,6 +254,7 @@ Definition p_where (a : arr) : res arr :=
     zs <- num_data (adata a) ;;
     if existsb (fun z => (z <? 0)%Z) zs then Err else
     if existsb (fun z => (range_limit <? z)%Z) zs then Unspec else
+    if (size_limit <? fold_right Z.add 0%Z zs * Z.max 1 (zlen (ash a)))%Z then Unspec else
     let cs := map Z.to_nat zs in
     match ash a with
     | [] | [_] =>
@@ -511,7 +518,7 @@ Definition take_len (m : amount) (n : nat) : nat :=
 Definition take_ok (hasfill : bool) (m : amount) (n : nat) : res unit :=
   match m with
   | AInt z => if (Z.abs z <=? Z.of_nat n)%Z then Ok tt
-              else if (range_limit <? Z.abs z)%Z then Unspec
+              else if (amt_limit <? Z.abs z)%Z then Unspec
               else if hasfill then Ok tt else Err
   | AInf false => Ok tt       (* "infinity can be used to take every row along an axis" *)
   | AInf true => Unspec
@@ -630,7 +637,8 @@ Definition amt_neg (m : amount) : bool :=
   match m with AInt z => (z <? 0)%Z | AInf b => b | _ => false end.
 Definition p_reshape (fill : option elem) (sc : bool) (amts : list amount) (a : arr) : res arr :=
   if existsb (fun m => match m with AFrac | ANaN => true | _ => false end) amts then Err else
-  if existsb (fun m => match m with AInt z => (range_limit <? Z.abs z)%Z | _ => false end) amts then Unspec else
+  if existsb (fun m => match m with AInt z => (amt_limit <? Z.abs z)%Z | _ => false end) amts then Unspec else
+  if (size_limit <? zprod (map (fun m => match m with AInt z => Z.abs z | _ => 1%Z end) amts) * Z.max 1 (zlen (adata a)))%Z then Unspec else
   if sc then
     match amts with
     | [AInt z] => if (z <? 0)%Z then Unspec   (* "↯¯3 [1 2 3 4]" is only shown, not described *)
@@ -659,7 +667,7 @@ Definition p_reshape (fill : option elem) (sc : bool) (amts : list amount) (a : 
 
 (* keep, defs.rs:1758-1805 *)
 Definition p_keep (fill : option elem) (sc : bool) (amts : list amount) (a : arr) : res arr :=
-  if existsb (fun m => match m with AInt z => (range_limit <? z)%Z | _ => false end) amts then Unspec else
+  if existsb (fun m => match m with AInt z => (amt_limit <? z)%Z | _ => false end) amts then Unspec else
   match ash a with
   | [] => Unspec
   | n :: s =>
